@@ -249,7 +249,7 @@ pub fn cmp_slice(imp: &[Float], r: &[Du], part: Part) -> Result<(), String> {
             a == want
         } else {
             // absolute floor: results below the smallest normal number may be flushed
-            (a - want).abs() <= tau() * bound.max(want.abs()) + if IS_F32 { 1.0e-30 } else { 1.0e-300 }
+            (a - want).abs() <= tau() * bound.max(want.abs()) + if IS_F32 { 1.0e-30 } else { 1.0e-320 }
         };
         if !ok || !a.is_finite() {
             return Err(format!(
@@ -463,6 +463,8 @@ impl Finish {
         cov.insert("evaluations".into(), json!(self.total.transitions.max(1)));
         cov.insert("distinct_nontrivial".into(), json!(self.total.outcomes.len()));
         cov.insert("distinct_outcomes".into(), json!(self.total.outcomes.len()));
+        // the set of outcome digests is only a vacuity guard and stops growing at this size
+        cov.insert("distinct_outcomes_counter_saturates_at".into(), json!(1u64 << 22));
         let mut samples = self.total.samples.clone();
         if samples.is_empty() {
             samples.push("(no case executed)".to_string());
